@@ -99,7 +99,7 @@ manifest = {
  },
  "engines": [{"name": "lean4-proof+correspondence", "path": "/verif/check",
               "serves_properties": sorted(CLAIMED),
-              "kind_free_text": "Lean 4 theorems about a hand-written executable model (/verif/lean), tied to the code on every run by a differential correspondence harness (/verif/harness) and by tables and envelope numbers regenerated from the Rust sources (tools/translate.py, tools/translate_env.py, Props/Tie.lean, Props/TieEnv.lean), driven by ./check"}],
+              "kind_free_text": "Lean 4 theorems about a hand-written executable model (/verif/lean), tied to the code on every run by a differential correspondence harness (/verif/harness) and by tables and envelope numbers regenerated from the Rust sources (tools/translate.py, tools/translate_env.py, Props/Tie.lean, Props/TieEnv.lean, Props/TieEnvName.lean, Props/TieEnvMdns.lean), driven by ./check"}],
  "checks": checks,
  "not_applicable": na,
  "notes": "See DESIGN.md. known_findings.txt lists recorded findings and fixed defects.",
